@@ -6,3 +6,10 @@ claim("C09", "proof", "flow-sensitive must-lockset analysis over go/ssa CFG + ca
       "is schedule-independent. It does NOT decide the sequential LRU behaviour (C08) or liveness.",
       BASE_NOTE + " Assumes callbacks do not re-enter the cache, a Store is not shared between caches, sync.Mutex semantics.",
       "DESIGN.md section 3, C09")
+claim("C16", "model_checking", "table extraction from the typed AST + exhaustive product construction against a POSIX reference transducer; SSA rules tie the interpreter loop to the table",
+      "Exhaustive comparison of the transducer extracted from the source tables (update, classOf, initial state, per-action effects of Scanner.Next, end-of-input verdict, "
+      "Complete) with an independently written POSIX reference transducer: every reachable (implementation state, reference state, class) triple and every end-of-input verdict "
+      "is compared, which covers every input string. Structural rules add chunking independence (input only through ReadByte), permanent stop after end of input, Rest handing back "
+      "the same buffered reader, stoppable Each, pooled scanner reset. Does NOT decide agreement with a real /bin/sh (nothing is executed); the reference transducer is trusted.",
+      BASE_NOTE + " traces_validated_against_impl is 0 by construction of this family: the model IS the source table, linked to the interpreter by rule R-FST-INTERP.",
+      "DESIGN.md section 3, C16")
